@@ -70,5 +70,14 @@ for rd,seeddir,fixdir,conf,runs in rounds:
             meta['first_run']=FIRST[rd].get(key,'' if rd!='r1' else 'not recorded for round 1')
             json.dump(meta,open(dst+'/meta.json','w'),indent=1)
             lines.append(f"| {rd} {key} | {where} | yes{' (rebased)' if rebased else ''} | {FIRST[rd].get(key,'')[:60]} | {'CAUGHT' if caught else 'MISSED'} | {first} | {AFTER[rd].get(key,'– (caught as the checks stood)' if rd!='r1' else 'not recorded otherwise')} |")
-open(ROOT+'/RESULTS.md','w').write('\n'.join(lines)+'\n')
+# summary per round
+summ=['','## Summary','','| round | kept (confirmed) | reported by the current checks | reported on the first run, before any strengthening for that seed |','|---|---|---|---|']
+for rd in ('r1','r2','r3'):
+    rows=[l for l in lines if l.startswith(f'| {rd} ')]
+    kept=[l for l in rows if 'NOT confirmed' not in l]
+    caught=[l for l in kept if '| CAUGHT |' in l]
+    firsts=[l for l in kept if l.split('|')[4].strip().startswith('caught')]
+    fr = 'not recorded (the checks were being written while these seeds came in)' if rd=='r1' else f'{len(firsts)}'
+    summ.append(f'| {rd} | {len(kept)} | {len(caught)} | {fr} |')
+open(ROOT+'/RESULTS.md','w').write('\n'.join(lines+summ)+'\n')
 print('\n'.join(lines[-45:]))
